@@ -89,6 +89,14 @@ ASSUME Script(Ex14) = <<"x=\"a b\"", "set -x", "x=q cat 0<<E 4<<-'F'", "here $x"
 \* simple.md: redirections (step 2) are performed before assignments (step 3)
 ASSUME Err(Ex14) = "+ x=q cat 0<<E 4<<-'F'\nhere a b\nE\ntab\nF\n" /\ Out(Ex14) = "here a b\n"
 
+(* xtrace module documentation: one line per command - assignments, words, redirections *)
+Ex19 == Std(<< SetO(<<"-x">>), Sc(<<Asg("x", Lit("1"))>>, <<>>, <<ROut(1, Lit("f3"))>>, 0) >>)
+ASSUME Err(Ex19) = "+ x=1 1>f3\n" /\ Only(Ex19).files = << <<"f3", "">> >>
+(* XCU 2.5.3: variables are initialized from the environment; "+ " is only the default of PS4 *)
+XOpt == Opts(TRUE, FALSE, FALSE, FALSE)
+Ex20 == ScenEnv(XOpt, << Echo(<<"a">>) >>, <<>>, <<PLit("> ")>>)
+ASSUME Err(Ex20) = "> echo a\n"
+
 (* POSIX: "It is unspecified whether the command that turns tracing off is traced." *)
 Ex15 == Std(<< SetO(<<"-x">>), SetO(<<"+x">>), Echo(<<"a">>) >>)
 ASSUME {Flat(a.err) : a \in Alts(Ex15)} = {"", "+ set +x\n"}
